@@ -142,7 +142,19 @@ def run(tier, replay):
             raise vlib.Inconclusive("concurrent writers harness failed\n" + out[-2000:])
         for b in json.load(open(co))["bad"] or []:
             V.violation("interim write overlapping the final write: " + b, {"bad": b})
-        cov = {"states": states, "transitions": trans, "traces_validated_against_impl": len(cases),
+        # kill points at write(2) granularity (strace): an append of a result larger than any library buffer
+        so = os.path.join(wd, "syswrite.json")
+        rc, out = vlib.go_test(wd, "./internal/mapr", OV, "TestC15SysWrite", env={"VERIF_OUT": so}, timeout=600)
+        if rc != 0 or not os.path.exists(so):
+            raise vlib.Inconclusive("write(2) kill harness failed\n" + out[-2000:])
+        sw = json.load(open(so))
+        for b in sw["bad"] or []:
+            V.violation(b, sw)
+        if sw.get("skipped"):
+            V.diverge("write(2)-granular kill points not explored: " + sw["skipped"])
+        else:
+            log("append run killed on entering the n-th write(2) to the outfile: %s" % ", ".join("%d:%s" % (o["n"], o["state"]) for o in sw["obs"] or []))
+        cov = {"states": states, "transitions": trans, "traces_validated_against_impl": len(cases), "syswrite_kills": sw.get("obs"),
                "evaluations": sum(len(r["snaps"]) for r in results), "distinct_nontrivial": kills,
                "rule": "cases = histories of Outfile.tla enumerated by TLC for 4 run shapes (interim+final non-append, append, repeated runs; each "
                        "run complete or killed before a given operation) plus every trace point of every run once as a kill point; evaluations "
